@@ -3,10 +3,17 @@
 (* The trace file (env TRACE_FILE) holds the atom tables of the titles and   *)
 (* a list of events, one per call:                                           *)
 (*   [tid, pages: <<[title, redirect, uses, flag]>>, terminated, marked]     *)
+(* and, for a call on a database that already carried marks (a later call of *)
+(* a recorded history analyse / add and overwrite pages / analyse again),    *)
+(* pre = the titles marked when the call started.                            *)
 (* For every event the model's algorithm is run on the recorded world (all   *)
-(* visiting orders), its result is compared with the declarative reference,  *)
-(* and the recorded result is judged against the reference:                  *)
-(*   Lower \subseteq marked \subseteq Upper and the call terminated.         *)
+(* visiting orders, starting from the recorded earlier marks), its result is *)
+(* compared with the declarative reference (closure of flagged + earlier     *)
+(* marks, + redirect neighbours), and the recorded result is judged:         *)
+(*   Lower \subseteq marked \subseteq UpperH and the call terminated          *)
+(* (Lower: demanded whatever the earlier marks are; UpperH = Upper when      *)
+(* there are none).  Inside the interval but different from the model's      *)
+(* result is reported with why = "drift".                                    *)
 EXTENDS Naturals, Sequences, FiniteSets, TLC, Json, IOUtils
 
 TraceFile == JsonDeserialize(IOEnv.TRACE_FILE)
@@ -27,7 +34,8 @@ tvars == <<world, marked, pc, ci, imap, stack, todo, amemo, cur, com, memo, l, b
 Range(s) == {s[k] : k \in 1..Len(s)}
 WorldOf(e) ==
   [pages |-> [k \in 1..Len(e.pages) |->
-     A!WPage(e.pages[k].title, e.pages[k].redirect, Range(e.pages[k].uses), e.pages[k].flag)]]
+     A!WPage(e.pages[k].title, e.pages[k].redirect, Range(e.pages[k].uses), e.pages[k].flag)],
+   pre |-> IF "pre" \in DOMAIN e THEN Range(e.pre) ELSE {}]
 Empty == [pages |-> <<>>]
 
 TInit ==
@@ -40,14 +48,17 @@ Judge ==
       W == world
       obs == Range(e.marked)
       lo == A!Lower(W)
-      up == A!Upper(W)
-      modelOK == marked = lo
+      up == A!UpperH(W)
+      ideal == A!IdealH(W)
+      modelOK == marked = ideal
       implOK == e.terminated /\ lo \subseteq obs /\ obs \subseteq up
       why == IF ~modelOK THEN "model" ELSE IF ~e.terminated THEN "nontermination"
-             ELSE IF obs = A!AsIs(W) THEN "asis" ELSE "other"
-  IN bad' = IF modelOK /\ implOK THEN bad
+             ELSE IF implOK THEN "drift"
+             ELSE IF A!PreOf(W) = {} /\ obs = A!AsIs(W) THEN "asis"
+             ELSE IF A!PreOf(W) # {} /\ obs = A!AsIsH(W) THEN "reseed" ELSE "other"
+  IN bad' = IF modelOK /\ implOK /\ obs = ideal THEN bad
             ELSE Append(bad, [i |-> l, tid |-> e.tid, why |-> why,
-                              lower |-> lo, upper |-> up, asis |-> A!AsIs(W)])
+                              lower |-> lo, upper |-> up, ideal |-> ideal, asis |-> A!AsIs(W)])
 
 TNext ==
   /\ l <= Len(Events)
@@ -62,5 +73,5 @@ TSpec == TInit /\ [][TNext]_tvars
 \* printed in the state(s) that have consumed the whole trace
 Verdict == (l = Len(Events) + 1) => PrintT(<<"VERDICT", ToJson([consumed |-> l - 1, bad |-> bad])>>)
 \* the model-level invariants hold along every validated run too
-ModelInv == A!NeverOvermarks /\ A!PushedOnce
+ModelInv == A!NeverOvermarksH /\ A!PushedOnce /\ A!KeepsEarlierMarks
 =============================================================================
